@@ -262,7 +262,7 @@ def _impl_one(case):
 # the property's oracle, on the real before / after files
 # ------------------------------------------------------------------------------------------------
 DEF_KINDS = ("FunctionDefinitionStart", "ClassDefinitionStart")
-PRIORITY = ["unaligned", "wrong-open-paren+stray-arrow", "stray-arrow", "wrong-open-paren", "node-spans-two-definitions", "docstring-node-overlong", "same-line-tail", "indent-sample-not-statement", "indent-under-4", "docstring-not-triple-quoted", "escape-in-docstring",
+PRIORITY = ["unaligned", "wrong-open-paren+stray-arrow", "stray-arrow", "wrong-open-paren", "node-spans-two-definitions", "header-node-has-tail", "docstring-node-overlong", "same-line-tail", "indent-sample-not-statement", "indent-under-4", "docstring-not-triple-quoted", "escape-in-docstring",
             "triple-quote-in-docstring", "header-last-node", "empty-docstring-removed", "async-docstring-removed", "header-resynth",
             "docstring-removed", "return-type-changed"]
 
@@ -532,6 +532,10 @@ def align(nb, na, parses):
                 # the scanner glued two definitions into one node (a decorated one-line stub is not flushed); the header is then
                 # compared with the *first* definition's signature (`ast_parse(...).body[0]`)
                 fl.append("node-spans-two-definitions")
+            if not x["value"].rstrip().endswith(":"):
+                # the scanner does not flush a decorated one-line stub at the end of the file: the header node also holds the body
+                # (`... # stub`), which `remove_return_typ` / the argument surgery cut or duplicate
+                fl.append("header-node-has-tail")
             bp, ap = x["value"][: max(x["value"].rfind(")"), 0)], y["value"][: max(y["value"].rfind(")"), 0)]
             fl.append("header-resynth" if bp != ap else "return-type-changed")
             s, e = span(y)
@@ -602,12 +606,6 @@ def pick_cause(flags, clause, field=None):
             if _listed(sig, specific):
                 return f
     return cand[0] if cand else "none"
-
-
-def cause_at_line(changes, line):
-    prior = [c for c in changes if c["start"] <= line]
-    c = max(prior, key=lambda c: c["start"]) if prior else (changes[0] if changes else None)
-    return _first_flag(c["flags"]) if c else "none"
 
 
 def text_with(nb, changes, k):
@@ -854,16 +852,16 @@ WITNESSES = [
     ("w-kwarg", ["C07-resynth-kwarg"], "def f(a, **b):\n" + REST_DOC + "    pass\n", ("rest", True, None), "def f(a: int):"),
     ("w-posonly", ["C07-resynth-posonly"], "def f(a, /, b):\n" + REST_DOC.replace(" a", " b") + "    pass\n", ("rest", True, None), "def f(b: int):"),
     ("w-ret-paren", [], "def f(a) -> T[()]:\n" + REST_DOC + "    pass\n", ("rest", True, None), "def f(a: int) -> T[()]:"),
-    ("w-stray-arrow", ["C07-stray-arrow"], 'def f(a) -> "g(x) -> y":\n' + REST_DOC + "    pass\n", ("rest", True, None), 'def f(a: int) -> y":'),
-    ("w-deco-paren", ["C07-wrong-open-paren"], "@dec(1) \ndef g(a):\n" + REST_DOC + "    pass\n", ("rest", True, None), "@dec(a: int):"),
+    ("w-stray-arrow", ["C07-stray-arrow", "C07-stray-arrow-any"], 'def f(a) -> "g(x) -> y":\n' + REST_DOC + "    pass\n", ("rest", True, None), 'def f(a: int) -> y":'),
+    ("w-deco-paren", ["C07-wrong-open-paren", "C07-wrong-open-paren-any"], "@dec(1) \ndef g(a):\n" + REST_DOC + "    pass\n", ("rest", True, None), "@dec(a: int):"),
     ("w-two-defs-one-node", ["C07-wrong-open-paren-definitions", "C07-wrong-open-paren-lines"],
      '@cache\ndef f1(\n    path_to,\n    n_items,\n) -> "Forward": ...  # stub\n@dec  #no space\nasync def f2(dataset_name, verbose=os.sep, *args: int):\n  """ """\n  import os\n',
      ("google", True, None), None),
-    ("w-two-defs-wrong-signature", ["C07-two-definitions-one-node"],
+    ("w-two-defs-wrong-signature", ["C07-two-definitions-one-node", "C07-two-definitions-one-node-any"],
      '@cache\ndef f1() -> int: ...  # stub\n@a.b\nasync def f2(a=1, *args) -> str:\n    """Do the thing.\n\n    Returns:\n      str: x\n    """\n    return None\n',
      ("google", True, None), None),
-    ("w-deco-paren-and-arrow", ["C07-paren-and-arrow-decorator", "C07-paren-and-arrow-lines"], "@dec()  # x -> y \ndef g(a: int):\n    return a\n", ("rest", False, None), None),
-    ("w-docstring-then-comment", ["C07-docstring-node-overlong"],
+    ("w-deco-paren-and-arrow", ["C07-paren-and-arrow-decorator", "C07-paren-and-arrow-lines", "C07-paren-and-arrow-any"], "@dec()  # x -> y \ndef g(a: int):\n    return a\n", ("rest", False, None), None),
+    ("w-docstring-then-comment", ["C07-docstring-node-overlong", "C07-docstring-node-overlong-any"],
      'class C:\n    """Doc."""  # noqa\n    def f(self, a):\n        """F doc."""\n        return a\n\ndef h(a):\n' + REST_DOC + "    return a\n", ("rest", True, None), None),
     ("w-docstring-then-comment-async", ["C07-docstring-node-overlong-definitions", "C07-docstring-node-overlong-comments", "C07-docstring-node-overlong-lines"],
      'async def g():\n    """Summary."""  # noqa\n    x = 1\n\n\ndef h(a=1):\n    """Doc h."""\n    return a\n', ("rest", True, None), None),
@@ -874,7 +872,7 @@ WITNESSES = [
     ("w-tail-comment", ["C07-tail-invalid"], "def g(a):  # c\n    return a\n", ("rest", False, None), None),
     ("w-tail-docstring", ["C07-tail-statements", "C07-tail-lines"], 'def g(a):  # c\n  """Doc.\n\n  :param a: the a\n  :type a: ```int```\n  """\n  return a\n',
      ("rest", True, None), None),
-    ("w-indent2", ["C07-indent-invalid"], 'def g(a):\n  """\n  Doc.\n\n  :param a: the a\n  :type a: ```int```\n  """\n  return a\n', ("rest", True, None), None),
+    ("w-indent2", ["C07-indent-invalid", "C07-indent-under-4-any"], 'def g(a):\n  """\n  Doc.\n\n  :param a: the a\n  :type a: ```int```\n  """\n  return a\n', ("rest", True, None), None),
     ("w-comment-indent", ["C07-indent-sample-invalid"], "def g(a):\n# note\n    return a\n", ("rest", False, None), None),
     ("w-blank-indent", ["C07-indent-sample-lines"], "def g(a):\n  \n    return a\n", ("rest", False, None), None),
     ("w-indent-tab-statements", ["C07-indent-statements", "C07-indent-lines"], 'def g(a):\n\t""" """\n\tz = 3\n\treturn a\n\ndef h(a):\n' + REST_DOC + "    return a\n",
@@ -883,16 +881,18 @@ WITNESSES = [
      'class C:\n    "Doc."\n    x = 1\n\ndef h(a):\n' + REST_DOC + "    return a\n", ("rest", True, None), None),
     ("w-raw-docstring", ["C07-plain-string-docstring-statements", "C07-plain-string-docstring-lines"],
      'class C:\n    r"""Doc \\d."""\n    x = 1\n\ndef h(a):\n' + REST_DOC + "    return a\n", ("rest", True, None), None),
-    ("w-triple-dq-inside", ["C07-triple-quote-in-docstring"],
+    ("w-triple-dq-inside", ["C07-triple-quote-in-docstring", "C07-triple-quote-in-docstring-any"],
      "def g(a):\n    \'\'\'Say \"\"\"hi\"\"\" to a.\n\n    :param a: the a\n    :type a: ```int```\n    \'\'\'\n    return a\n", ("rest", True, None), None),
-    ("w-unbalanced-comment", ["C07-header-last-node-statements", "C07-header-last-node-lines"],
+    ("w-unbalanced-comment", ["C07-header-last-node-statements", "C07-header-last-node-lines", "C07-header-last-node-any"],
      "def h(a):\n" + REST_DOC + '    return a\n\nclass C(Base):  # 1) note\n    """Doc."""\n    x = 1\n', ("rest", True, None), None),
     # an `async def` whose body is its docstring, in a file that is rewritten: the docstring must stay (get_doc_str handles AsyncFunctionDef)
     ("w-async-sole", [], 'async def g(a):\n    """Doc."""\n\ndef h(a):\n' + REST_DOC + "    return a\n", ("rest", True, None), None),
     ("w-empty-docstring-sole-body", ["C07-empty-docstring-sole-body"], 'class C:\n    ' + '"' * 6 + '\n\ndef h(a):\n' + REST_DOC + "    return a\n", ("rest", True, None), None),
-    ("w-escape-in-docstring", ["C07-escape-in-docstring"],
+    ("w-escape-in-docstring", ["C07-escape-in-docstring", "C07-escape-in-docstring-any"],
      "class C1:\n    def step(self,\n             *args,\n             **kwargs: Any):\n        \'\'\'Summary line. A backslash: \\\\\'\'\'\n        #no space\n        ...\n",
      ("google", False, None), None),
+    ("w-decorated-stub-at-eof", ["C07-header-node-has-tail", "C07-header-node-has-tail-any"],
+     "@dec()\nclass C3(object):\n    @dec\n    def step(self,\n             bar_baz) -> int: ...  # stub", ("google", False, None), None),
     ("w-stub-atomic", [], "def s(a): ...\n\ndef h(a):\n" + REST_DOC + "    return a\n", ("rest", True, None), None),
 ]
 
@@ -1021,9 +1021,34 @@ def ast_request(c, r):
 
 
 # ------------------------------------------------------------------------------------------------
+BATCH_TIMEOUT_S = 3600  # for one batch of <= 4000 runs (normally 10-40 s); there is NO per-case timeout
+
+
+def pmap_guarded(fn, items):
+    """Process-parallel map.  No per-case timeout exists, so machine load can never turn a slow run into a result; if a whole batch is
+    not back after BATCH_TIMEOUT_S (a hang of the analysed code or of the machine) the workers are killed and the check ends as a
+    harness problem (exit 2) — never as a verdict."""
+    import concurrent.futures as cf
+
+    if len(items) < 64:
+        return [fn(x) for x in items]
+    ex = cf.ProcessPoolExecutor(core.NCPU)
+    try:
+        return list(ex.map(fn, items, chunksize=16, timeout=BATCH_TIMEOUT_S))
+    except cf.TimeoutError:
+        for pr in list(getattr(ex, "_processes", {}).values()):
+            try:
+                pr.kill()
+            except Exception:  # noqa
+                pass
+        raise core.HarnessError("a batch of %d doctrans runs did not finish within %d s (hang or overload); no verdict" % (len(items), BATCH_TIMEOUT_S))
+    finally:
+        ex.shutdown(wait=False, cancel_futures=True)
+
+
 def process_batch(chk: core.Check, cases, acc):
     """real runs, model runs, correspondence and the property's oracle for one batch of cases"""
-    res = core.pmap(impl_one, cases, chunksize=16)
+    res = pmap_guarded(impl_one, cases)
     for c, r in zip(cases, res):
         if "harness_error" in r:
             raise core.HarnessError("impl_one failed on a %s case: %s" % (c["kind"], r["harness_error"]))
